@@ -55,6 +55,9 @@ CHECKS = {
  "C20": dict(cat="proof", tech="contract-based deductive for plain Python: verification conditions generated from the ast of the real source (own symbolic executor, sidecar contracts, ghost delivery trace as (array, length), loop invariant for the fan-out loop), discharged by z3",
              text="Per-call contracts: publish rejects a wrong-typed message without delivering, otherwise delivers the same object exactly once to every subscriber of the topic in registration order and to no one else (loop invariant VCs); Subscriber registration appends to its own topic only; set_param writes one key then broadcasts; Param.update/get_param; the logger's per-resumption contract; the estimator never reaches predict with dt <= 0 and applies corrections only when the minimum period (minus 1 ms) has elapsed, updating t_last_* exactly then.",
              note="assumed Python-subset semantics and frame assumptions (listed); simpy scheduler contract assumed for logger timing; params_callback list bounded to 3 (labelled); whole-history order follows from synchronous per-call delivery", ref="5/C20"),
+ "C19": dict(cat="proof", tech="contract-based deductive by structural induction: one obligation per constructor / opcode, obtained by running the real converter on a one-level term with fresh leaves and proving with z3 that the result has the constructor's semantics (C99 opcode table vs SymPy head table, shared uninterpreted transcendental functions); constant-leaf branches and compositionality decided from the ast of the real source",
+             text="Every CasADi opcode casadi_to_sympy accepts and every SymPy head sympy_to_casadi accepts keeps its meaning for all leaf values (incl. negative operands, non-integer floats); unsupported constructs raise; f_dict dispatch, symbol tables (incl. cse) are consistent. Variable-arity heads and matrices are checked for stated arities/shapes (bounded part, labelled).",
+             note="op-semantics tables trusted; induction principle not machine-checked; Add/Mul arity 2..4 and matrix shapes bounded; one known finding (IEEE remainder)", ref="5/C19"),
 }
 NA = {
  "C17": "closed-loop convergence of the hybrid cascade from an envelope of initial conditions is a whole-trajectory property; no pre/postcondition on a function of /repo expresses it short of a Lyapunov certificate (its per-call ingredients are C13, C15, C16)",
